@@ -1,1 +1,319 @@
-// stub
+//! E7 advsearch: bounded exhaustive search inside the sparse-coset family (DESIGN 3.2).
+//!
+//! Family: every z_j is supported on the exponents that are multiples of 256/m. The library's forward
+//! transform then yields an NTT vector constant on m contiguous blocks, with block values v = V a (mod q)
+//! for a fixed invertible m x m matrix V. The sum of all 256 coefficients of row k of A z — what
+//! coefficient 0 of the inverse transform accumulates — separates into per-(polynomial, block) terms
+//! F_{k,j,b}(v). Search: evaluate F on ALL q residues per (j, b), keep the top T, enumerate all T^m
+//! combinations per polynomial by meet-in-the-middle, keep those whose preimage a = V^-1 v has every
+//! coordinate inside (-(gamma1-beta), gamma1-beta), take the best. The arithmetic used to *guide* the
+//! search is a transcription of Montgomery reduction; the *verdict* comes from evaluating the selected
+//! z with the real ntt / mat_vec_mul / inv_ntt (hooks) and the real verify().
+
+use crate::forge::VCase;
+use crate::subject::guard;
+use fips204::verif_hooks as hk;
+use rayon::prelude::*;
+use refmodel::{hex, mod_q, unhex, Mode, Params, PkCtx, Poly, POLY0, Q};
+use serde_json::{json, Value};
+use std::sync::Arc;
+
+const QINV: i32 = 58_728_449;
+fn mont(a: i64) -> i64 {
+    let t = (a as i32).wrapping_mul(QINV);
+    (a - i64::from(t).wrapping_mul(Q)) >> 32
+}
+fn to_mont_scalar(v: i64) -> i64 {
+    // value congruent to v * 2^32 in (-q, q); the guide does not need the library's exact representative
+    let r = ((i128::from(v) << 32) % i128::from(Q)) as i64;
+    if r > Q / 2 {
+        r - Q
+    } else {
+        r
+    }
+}
+
+fn inv_mod(a: i64) -> i64 { refmodel::pow_mod(a, (Q - 2) as u64) }
+
+/// V (m x m): block values of the library's forward transform for unit inputs; and its inverse mod q
+fn block_matrix(m: usize) -> (Vec<Vec<i64>>, Vec<Vec<i64>>) {
+    let step = 256 / m;
+    let mut v = vec![vec![0i64; m]; m];
+    for i in 0..m {
+        let mut w = POLY0;
+        w[i * step] = 1;
+        let out = hk::ntt(&[w]);
+        for b in 0..m {
+            // constant on the block: assert it
+            let val = mod_q(i64::from(out[0][b * step]));
+            for n in 0..step {
+                assert_eq!(mod_q(i64::from(out[0][b * step + n])), val, "sparse-coset structure: NTT not constant on block");
+            }
+            v[b][i] = val;
+        }
+    }
+    // inverse by Gauss-Jordan mod q
+    let mut a: Vec<Vec<i64>> = v.iter().enumerate().map(|(r, row)| row.iter().cloned().chain((0..m).map(|c| i64::from(c == r))).collect()).collect();
+    for col in 0..m {
+        let piv = (col..m).find(|&r| a[r][col] != 0).expect("V invertible");
+        a.swap(col, piv);
+        let inv = inv_mod(a[col][col]);
+        for x in a[col].iter_mut() {
+            *x = *x * inv % Q;
+        }
+        for r in 0..m {
+            if r != col && a[r][col] != 0 {
+                let f = a[r][col];
+                for c in 0..2 * m {
+                    a[r][c] = mod_q(a[r][c] - f * a[col][c]);
+                }
+            }
+        }
+    }
+    let w = a.iter().map(|row| row[m..].to_vec()).collect();
+    (v, w)
+}
+
+#[derive(Clone, Debug)]
+pub struct Eval {
+    /// plain sums of the 256 coefficients of each row of mat_vec_mul(A, ntt(z)), as the library computes them
+    pub row_sums: Vec<i64>,
+    pub max_abs_sum_over_q: f64,
+    pub panic: Option<String>,
+    pub matches_reference: bool,
+}
+
+/// exact evaluation with the real kernels
+pub fn evaluate<const K: usize, const L: usize>(p: &'static Params, rho: &[u8; 32], z: &[Poly]) -> Eval {
+    let a_ref = refmodel::expand_a(p, rho);
+    let a: [[Poly; L]; K] = core::array::from_fn(|k| core::array::from_fn(|j| a_ref[k][j]));
+    let za: [Poly; L] = core::array::from_fn(|j| z[j]);
+    let mut ev = Eval { row_sums: vec![], max_abs_sum_over_q: 0.0, panic: None, matches_reference: false };
+    let az_hat = match guard(|| hk::mat_vec_mul::<K, L>(&a, &hk::ntt(&za))) {
+        Ok(v) => v,
+        Err(pn) => {
+            ev.panic = Some(format!("ntt/mat_vec_mul: {}", pn.0));
+            return ev;
+        }
+    };
+    ev.row_sums = az_hat.iter().map(|r| r.iter().map(|&c| i64::from(c)).sum()).collect();
+    ev.max_abs_sum_over_q = ev.row_sums.iter().map(|s| s.abs() as f64 / Q as f64).fold(0.0, f64::max);
+    match guard(|| hk::inv_ntt(&az_hat)) {
+        Err(pn) => ev.panic = Some(format!("inv_ntt: {}", pn.0)),
+        Ok(w) => {
+            let pkc = PkCtx::new(p, &refmodel::zero_t1_pk(p, rho));
+            let want = refmodel::az_of(&pkc, z);
+            ev.matches_reference = (0..K).all(|k| (0..256).all(|n| mod_q(i64::from(w[k][n])) == i64::from(want[k][n])));
+        }
+    }
+    ev
+}
+pub fn evaluate_dyn(p: &'static Params, rho: &[u8; 32], z: &[Poly]) -> Eval {
+    match p.id {
+        44 => evaluate::<4, 4>(p, rho, z),
+        65 => evaluate::<6, 5>(p, rho, z),
+        _ => evaluate::<8, 7>(p, rho, z),
+    }
+}
+
+pub struct SearchResult {
+    pub z: Option<Vec<Poly>>,
+    pub predicted_sum_over_q: f64,
+    pub admissible_per_poly: Vec<usize>,
+    pub residues_evaluated: u64,
+    pub combinations_enumerated: u64,
+}
+
+/// bounded exhaustive search for (row, sign) in the family with m blocks and top-T lists
+pub fn search(p: &'static Params, rho: &[u8; 32], row: usize, sign: i64, m: usize, t: usize) -> SearchResult {
+    let step = 256 / m;
+    let (_v, w) = block_matrix(m);
+    let a_hat = refmodel::expand_a(p, rho);
+    let g = p.gamma1 - p.beta; // |a_i| < g
+    let mut z = vec![POLY0; p.l];
+    let mut total = 0i64;
+    let mut adm = Vec::new();
+    let mut residues = 0u64;
+    let mut combos = 0u64;
+    let mut all_found = true;
+    for j in 0..p.l {
+        // top-T residues per block, over ALL q residues
+        let tops: Vec<Vec<(i64, i64)>> = (0..m)
+            .map(|b| {
+                let coeffs: Vec<i64> = (0..step).map(|n| i64::from(a_hat[row][j][b * step + n])).collect();
+                let nchunk = 64;
+                let per = (Q as usize).div_ceil(nchunk);
+                let mut best: Vec<(i64, i64)> = (0..nchunk)
+                    .into_par_iter()
+                    .flat_map_iter(|c| {
+                        let lo = (c * per) as i64;
+                        let hi = (((c + 1) * per) as i64).min(Q);
+                        let mut local: Vec<(i64, i64)> = Vec::with_capacity(t + 1);
+                        for v in lo..hi {
+                            let vm = to_mont_scalar(v);
+                            let f: i64 = coeffs.iter().map(|&a| mont(a * vm)).sum::<i64>() * sign;
+                            if local.len() < t || f > local[local.len() - 1].0 {
+                                local.push((f, v));
+                                local.sort_unstable_by(|x, y| y.0.cmp(&x.0));
+                                local.truncate(t);
+                            }
+                        }
+                        local
+                    })
+                    .collect();
+                best.sort_unstable_by(|x, y| y.0.cmp(&x.0));
+                best.truncate(t);
+                best
+            })
+            .collect();
+        residues += (m as u64) * Q as u64;
+        // meet in the middle over the two halves of the blocks
+        let half = m / 2;
+        let enumerate_half = |blocks: std::ops::Range<usize>| -> Vec<(i64, Vec<i64>, Vec<usize>)> {
+            let nb = blocks.len();
+            let count = t.pow(nb as u32);
+            (0..count)
+                .map(|c| {
+                    let mut cc = c;
+                    let mut f = 0i64;
+                    let mut vec = vec![0i64; m];
+                    let mut pick = Vec::with_capacity(nb);
+                    for b in blocks.clone() {
+                        let (fb, vb) = tops[b][cc % t];
+                        pick.push(cc % t);
+                        cc /= t;
+                        f += fb;
+                        for (i, x) in vec.iter_mut().enumerate() {
+                            *x = (*x + w[i][b] * vb) % Q;
+                        }
+                    }
+                    (f, vec, pick)
+                })
+                .collect()
+        };
+        let (left, right) = if m >= 2 { (enumerate_half(0..half), enumerate_half(half..m)) } else { (vec![(0, vec![0; m], vec![])], enumerate_half(0..m)) };
+        combos += (left.len() as u64) * (right.len() as u64);
+        // bucket the left half by its first coordinate (bucket width g)
+        let nb = (Q / g + 1) as usize;
+        let mut buckets: Vec<Vec<usize>> = vec![Vec::new(); nb];
+        for (i, (_, v, _)) in left.iter().enumerate() {
+            buckets[(v[0] / g) as usize].push(i);
+        }
+        let centred = |x: i64| if x > Q / 2 { x - Q } else { x };
+        let best: Option<(i64, usize, usize)> = right
+            .par_iter()
+            .enumerate()
+            .filter_map(|(ri, (fr, vr, _))| {
+                // need (vl[0] + vr[0]) mod q in (-g, g): vl[0] in (-vr[0]-g, -vr[0]+g) mod q
+                let target = mod_q(-vr[0]);
+                let mut bestl: Option<(i64, usize)> = None;
+                let b0 = (target / g) as i64;
+                for db in -2..=2i64 {
+                    let b = (b0 + db).rem_euclid(nb as i64) as usize;
+                    for &li in &buckets[b] {
+                        let (fl, vl, _) = &left[li];
+                        if (0..m).all(|i| centred((vl[i] + vr[i]) % Q).abs() < g) && bestl.map_or(true, |(f, _)| *fl > f) {
+                            bestl = Some((*fl, li));
+                        }
+                    }
+                }
+                // the wrap-around bucket (residues near 0 / q) is covered by db = +-1 modulo nb, plus the last partial bucket
+                bestl.map(|(fl, li)| (fl + fr, li, ri))
+            })
+            .max_by_key(|x| x.0);
+        match best {
+            None => {
+                adm.push(0);
+                all_found = false;
+            }
+            Some((f, li, ri)) => {
+                adm.push(1);
+                total += f;
+                let a: Vec<i64> = (0..m).map(|i| centred((left[li].1[i] + right[ri].1[i]) % Q)).collect();
+                for (i, &ai) in a.iter().enumerate() {
+                    z[j][i * step] = ai as i32;
+                }
+            }
+        }
+    }
+    SearchResult { z: all_found.then_some(z), predicted_sum_over_q: total as f64 / Q as f64, admissible_per_poly: adm, residues_evaluated: residues, combinations_enumerated: combos }
+}
+
+/// m = 1: complete enumeration of the family (all admissible constants per polynomial; the objective separates)
+pub fn search_m1(p: &'static Params, rho: &[u8; 32], row: usize, sign: i64) -> (Vec<Poly>, f64, u64) {
+    let a_hat = refmodel::expand_a(p, rho);
+    let g = p.gamma1 - p.beta;
+    let (v, _) = block_matrix(1);
+    let v00 = v[0][0];
+    let mut z = vec![POLY0; p.l];
+    let mut total = 0i64;
+    for j in 0..p.l {
+        let coeffs: Vec<i64> = (0..256).map(|n| i64::from(a_hat[row][j][n])).collect();
+        let best = (-(g - 1)..g)
+            .into_par_iter()
+            .map(|a| {
+                let vm = to_mont_scalar(mod_q(a * v00));
+                (coeffs.iter().map(|&c| mont(c * vm)).sum::<i64>() * sign, a)
+            })
+            .max_by_key(|x| x.0)
+            .unwrap();
+        total += best.0;
+        z[j][0] = best.1 as i32;
+    }
+    (z, total as f64 / Q as f64, (2 * g - 1) as u64 * p.l as u64)
+}
+
+// ---------------------------------------------------------------- witnesses
+
+pub fn witness_path(p: &Params) -> String { format!("{}/witnesses/e7_mldsa{}.json", crate::report::verif_root(), p.id) }
+
+pub fn z_to_json(z: &[Poly]) -> Value {
+    json!(z.iter().map(|poly| poly.iter().enumerate().filter(|(_, &c)| c != 0).map(|(i, &c)| json!([i, c])).collect::<Vec<_>>()).collect::<Vec<_>>())
+}
+pub fn z_from_json(p: &Params, v: &Value) -> Vec<Poly> {
+    let mut z = vec![POLY0; p.l];
+    for (j, poly) in v.as_array().unwrap().iter().enumerate() {
+        for e in poly.as_array().unwrap() {
+            z[j][e[0].as_u64().unwrap() as usize] = e[1].as_i64().unwrap() as i32;
+        }
+    }
+    z
+}
+
+pub struct Witness {
+    pub name: String,
+    pub rho: [u8; 32],
+    pub z: Vec<Poly>,
+}
+pub fn load_witness_list(p: &'static Params) -> Vec<Witness> {
+    let Ok(text) = std::fs::read_to_string(witness_path(p)) else { return Vec::new() };
+    let Ok(v) = serde_json::from_str::<Value>(&text) else { return Vec::new() };
+    v["witnesses"]
+        .as_array()
+        .map(|a| {
+            a.iter()
+                .map(|w| Witness { name: w["name"].as_str().unwrap_or("").to_string(), rho: unhex(w["rho"].as_str().unwrap()).try_into().unwrap(), z: z_from_json(p, &w["z"]) })
+                .collect()
+        })
+        .unwrap_or_default()
+}
+
+/// the witnesses completed to signatures FIPS 204 accepts (zero-t1 forging): verification cases
+pub fn load_witnesses(p: &'static Params) -> Vec<(String, VCase)> {
+    load_witness_list(p)
+        .into_iter()
+        .map(|w| {
+            let pkb = Arc::new(refmodel::zero_t1_pk(p, &w.rho));
+            let pkc = PkCtx::new(p, &pkb);
+            let msg = b"sparse-coset".to_vec();
+            let mp = refmodel::format_message(Mode::Pure, &msg, b"").unwrap();
+            let sig = refmodel::forge_zero_t1(&pkc, &mp, &w.z, &vec![POLY0; p.k], &vec![0u8; p.omega + p.k]);
+            (w.name.clone(), VCase { class: format!("D7:sparse-coset:{}", w.name), pk: pkb, mode: Mode::Pure, msg, ctx: vec![], sig, intent: Some(true) })
+        })
+        .collect()
+}
+
+pub fn save_witnesses(p: &'static Params, ws: &[(String, [u8; 32], Vec<Poly>, f64)]) {
+    let v = json!({"set": p.id, "family": "sparse-coset (DESIGN 3.2)", "witnesses": ws.iter().map(|(n, rho, z, s)| json!({"name": n, "rho": hex(rho), "z": z_to_json(z), "row_sum_over_q": s})).collect::<Vec<_>>()});
+    std::fs::write(witness_path(p), serde_json::to_string_pretty(&v).unwrap()).expect("write witness");
+}
